@@ -102,41 +102,43 @@ theorem memcpy_eq (len : Int) (src dst : List Frag) (hs : src ≠ []) (hd : dst 
   cases dst with
   | nil => exact absurd rfl hd
   | cons d dd =>
-    simp only [Iov.memcpy, Flat.cpy, sumLen_eq]
-    by_cases h1 : len > 0 ∧ len > ((s :: ss).flatten.length : Int)
-    · simp [h1]
-    · by_cases h2 : len > 0 ∧ len > ((d :: dd).flatten.length : Int)
-      · have : ¬ len > ((s :: ss).flatten.length : Int) := by omega
-        simp [h1, h2, this]
-      · simp only [h1, h2, if_false]
-        have := cpyLoop_eq ((s :: ss).length + (d :: dd).length + (s :: ss).flatten.length + 1) len s ss [] [] d dd 0
-          (by simp; omega)
-        simp only [List.flatten_nil, List.nil_append, List.map_nil, List.length_nil, Nat.zero_add] at this
+    have hS : (s :: ss).flatten = s ++ ss.flatten := by simp
+    have hD : (d :: dd).flatten = d ++ dd.flatten := by simp
+    generalize hSd : s ++ ss.flatten = S at hS
+    generalize hDd : d ++ dd.flatten = D at hD
+    unfold Iov.memcpy Flat.cpy
+    simp only [sumLen_eq, hS, hD]
+    by_cases h1 : len > 0 ∧ len > (S.length : Int)
+    · simp only [h1, and_self, if_true]; simp [hDd]
+    · by_cases h2 : len > 0 ∧ len > (D.length : Int)
+      · have g : ¬ len > (S.length : Int) := by omega
+        simp only [h2, g, and_self, if_true, if_false]; simp [hDd]
+      · rw [if_neg h1, if_neg h2]
+        have := cpyLoop_eq ((s :: ss).length + (d :: dd).length + S.length + 1) len s ss [] [] d dd 0
+          (by simp [hSd]; omega)
+        simp only [List.flatten_nil, List.nil_append, List.map_nil, List.length_nil, Nat.zero_add, hSd, hDd] at this
         obtain ⟨r1, r2, r3⟩ := this
-        have hS : (s :: ss).flatten = s ++ ss.flatten := by simp
-        have hD : (d :: dd).flatten = d ++ dd.flatten := by simp
-        rw [hS, hD] at h1 h2 ⊢
         by_cases hp : len > 0
-        · have ha : cpyAmount len (s ++ ss.flatten).length (d ++ dd.flatten).length = len.toNat := by
+        · have ha : cpyAmount len S.length D.length = len.toNat := by
             simp only [cpyAmount]; split <;> omega
-          have g1 : ¬ len > ((s ++ ss.flatten).length : Int) := by omega
-          have g2 : ¬ len > ((d ++ dd.flatten).length : Int) := by omega
+          have g1 : ¬ len > (S.length : Int) := by omega
+          have g2 : ¬ len > (D.length : Int) := by omega
           rw [ha] at r1 r2
           simp only [hp, g1, g2, if_true, if_false]
           refine ⟨?_, r2, by simpa using r3⟩
           rw [r1]; omega
         · by_cases hz : len = 0
-          · have ha : cpyAmount len (s ++ ss.flatten).length (d ++ dd.flatten).length = 0 := by
+          · have ha : cpyAmount len S.length D.length = 0 := by
               simp [cpyAmount, hz]
             rw [ha] at r1 r2
-            simp only [hp, hz, if_true, if_false]
-            refine ⟨by rw [r1]; simp [hz], by simpa using r2, by simpa using r3⟩
-          · have ha : cpyAmount len (s ++ ss.flatten).length (d ++ dd.flatten).length
-                = min (s ++ ss.flatten).length (d ++ dd.flatten).length := by
+            subst hz
+            simp only [if_true, if_false, Int.lt_irrefl, gt_iff_lt]
+            refine ⟨by rw [r1]; simp, by simpa using r2, by simpa using r3⟩
+          · have ha : cpyAmount len S.length D.length = min S.length D.length := by
               simp only [cpyAmount]; split <;> omega
             rw [ha] at r1 r2
             simp only [hp, hz, if_false]
-            refine ⟨by rw [r1]; simp, r2, by simpa using r3⟩
+            refine ⟨by rw [r1], r2, by simpa using r3⟩
 
 /-- without a source or a target fragment `mpt_memcpy` returns 0 whatever the length -/
 theorem memcpy_nofrag (len : Int) (src dst : List Frag) (h : src = [] ∨ dst = []) :
